@@ -11,6 +11,7 @@ import SSEPyVerif.Proofs.Schemes.PiPtr
 import SSEPyVerif.Proofs.Schemes.ANSS16
 import SSEPyVerif.Proofs.Schemes.CT14
 import SSEPyVerif.Proofs.Schemes.SSE1
+import SSEPyVerif.Proofs.Schemes.Pi2Lev
 namespace SSEPy.C02
 open SSEPy.Sch SSEPy.Sch.Chain
 
@@ -56,6 +57,13 @@ theorem CT14.search_absent_empty (cfg : CT14Cfg) (lv : Leaves) (HT : List Table)
 theorem SSE1.search_absent_empty (cfg : SSE1Cfg) (lv : Leaves) (edb : SSE1EDB) (gamma eta : Bytes)
     (hmiss : edb.T.get gamma = none) : SSE1.search cfg lv edb (gamma, eta) = .ok [] := by
   simp [SSE1.search, hmiss]
+
+/-- Pi2Lev: a keyword whose dictionary label is not stored gets the empty result (this is the behaviour repaired by
+    commit b9f206a: before it the search raised KeyError) -/
+theorem Pi2Lev.search_absent_empty (cfg : Pi2LevCfg) (lv : Leaves) (edb : PiPtrEDB) (K1 K2 l0 : Bytes)
+    (h0 : cfg.prfF.call lv.hmac K1 [0] = .ok l0) (hmiss : edb.D.get l0 = none) :
+    Pi2Lev.search cfg lv edb (K1, K2) = .ok [] := by
+  simp [Pi2Lev.search, h0, hmiss, bind, Except.bind, pure, Except.pure]
 
 /-- SSE-2: a keyword whose first address `π(w ‖ 1)` is not the address of a stored posting gets the empty result -/
 theorem SSE2.search_absent_empty (cfg : SSE2Cfg) (lv : Leaves) (K1 : Bytes) (db : DB) (I : ITable)
